@@ -3,6 +3,7 @@ import Generated.C13
 import Proofs.C13
 import Proofs.C13.Equiv
 import Proofs.C13.Part
+import Proofs.C13.LookbackEquiv
 /-!
 # C13 — property theorems (statements only; proofs in `Proofs/C13*.lean`)
 
@@ -22,10 +23,15 @@ theorem generated_refreshed_eq_model :
     Generated.C13.refreshedFields = refreshedFields ∧ Generated.C13.refreshedFieldsLookback = refreshedFields := by decide
 
 /-- every `InstanceDesc` proto field is compared by `RingCompare`, except `Id` (derived from the map
-key by `setInstanceIDs`) and `Versions` (finding F-C13-1). A new proto field that `RingCompare` does
-not read makes this obligation fail. -/
+key by `setInstanceIDs`). A new proto field that `RingCompare` does not read makes this obligation
+fail (as `Versions` did before fix 0ec0b1e, finding F-C13-1). -/
 theorem proto_fields_accounted :
-    ∀ f ∈ Generated.C13.protoFields, f ∈ Generated.C13.comparedFields ∨ f = "Id" ∨ f = "Versions" := by decide
+    ∀ f ∈ Generated.C13.protoFields, f ∈ Generated.C13.comparedFields ∨ f = "Id" := by decide
+
+/-- every compared field either makes the result `Different` or is one of the two fields that the
+cached sub-rings refresh. -/
+theorem compared_fields_refreshed_or_different :
+    ∀ f ∈ Generated.C13.comparedFields, f ∈ Generated.C13.refreshedFields ∨ f ∉ stateFields := by decide
 
 /-- the fields that may differ under `EqualButStatesAndTimestamps` are exactly the fields the cached
 sub-rings refresh. -/
@@ -34,8 +40,8 @@ theorem refreshed_are_state_fields :
 
 /-! ### `RingCompare` -/
 
-/-- not `Different` ⇒ the descriptors agree, instance by instance, on every field except State,
-Timestamp and Versions — hence on everything the token / zone indexes, the per-zone counters, the
+/-- not `Different` ⇒ the descriptors agree, instance by instance, on every field except State and
+Timestamp — hence on everything the token / zone indexes, the per-zone counters, the
 oldest registration time and the read-only statistics are computed from. -/
 theorem compare_sound (a b : Desc) (ha : Canon a) (hb : Canon b) (h : ringCompare a b ≠ .different) :
     a.map key = b.map key ∧ a.map core = b.map core :=
@@ -56,23 +62,17 @@ theorem client_inv (st : Streams) (cfg : Cfg) (steps : List Step) (hc : CanonSte
   have hd := run_desc st steps { cfg := cfg }
   exact ⟨hd.1, hd.2, hi.keyEq, core_of_key _ _ hi.keyEq⟩
 
-/-
-Full statement (FALSE for the current code, see `stale_versions_witness`):
-
-  theorem observational_equivalence … :
-      (queryShard (run st {cfg} steps) st ident size).1 = (queryShard (fresh cfg (lastDesc steps [])) st ident size).1
-      (and likewise for ShuffleShardWithLookback at every query time)
-
-Proved part: the answers agree in every field except `Versions` (so: exactly, for histories whose
-updates keep Versions), for the plain shuffle shard (cache hits and misses), key lookups and the
-instance/zone counters. Not proved: the look-back cache (`lookback_window_valid`: a cached
-look-back sub-ring is served only for window starts in `[after, before]`, inside which the
-look-back shard is constant) — tied by correspondence and judged on every generated history only.
--/
-theorem observational_equivalence_partial (st : Streams) (cfg : Cfg) (steps : List Step) (hc : CanonSteps steps) :
+/-- **observational equivalence**: whatever updates the client has seen and whatever plain or
+look-back queries (at any, also non-monotonic, query times) were served in between, every answer —
+plain shuffle shard and look-back shuffle shard at any query time (cache hits and misses), key
+lookups, counters, the descriptor itself — equals the answer of a client freshly built from the
+latest descriptor, in every field of every returned instance.
+(Full strength since fix 0ec0b1e; before it the statement held only up to `Versions`.) -/
+theorem observational_equivalence (st : Streams) (cfg : Cfg) (steps : List Step) (hc : CanonSteps steps) :
     let c := run st { cfg := cfg } steps
     let f := fresh cfg (lastDesc steps [])
-    (∀ ident size, eraseV (queryShard c st ident size).1 = eraseV (queryShard f st ident size).1) ∧
+    (∀ ident size, (queryShard c st ident size).1 = (queryShard f st ident size).1) ∧
+    (∀ ident size period now, (queryShardLB c st ident size period now).1 = (queryShardLB f st ident size period now).1) ∧
     (∀ k, get1 c k = get1 f k) ∧ (∀ zs, counts c zs = counts f zs) ∧ c.desc = f.desc := by
   have hi := inv_run st steps { cfg := cfg } (inv_init st cfg) hc
   have hd := run_desc st steps { cfg := cfg }
@@ -80,33 +80,28 @@ theorem observational_equivalence_partial (st : Streams) (cfg : Cfg) (steps : Li
   have e : fresh cfg (lastDesc steps []) = fresh (run st { cfg := cfg } steps).cfg (run st { cfg := cfg } steps).desc := by
     rw [hd.1, hd.2]
   rw [e]
-  refine ⟨fun i s => queryShard_equiv st _ hi i s, fun k => get1_equiv st _ hi k, fun zs => counts_equiv st _ hi zs, ?_⟩
+  refine ⟨fun i s => queryShard_equiv st _ hi i s, fun i s p n => queryShardLB_equiv st _ hi i s p n,
+    fun k => get1_equiv st _ hi k, fun zs => counts_equiv st _ hi zs, ?_⟩
   rw [fresh_eq]
 
-/-- corollary: if the cached members carry the same Versions as the latest descriptor (in particular
-if no update of the history changed Versions), the plain shard answer is exactly the fresh one. -/
-theorem observational_equivalence_keeping_versions (st : Streams) (cfg : Cfg) (steps : List Step) (hc : CanonSteps steps)
-    (ident : String) (size : Int)
-    (hv : (queryShard (run st { cfg := cfg } steps) st ident size).1.map (·.versions) =
-          (queryShard (fresh cfg (lastDesc steps [])) st ident size).1.map (·.versions)) :
-    (queryShard (run st { cfg := cfg } steps) st ident size).1 = (queryShard (fresh cfg (lastDesc steps [])) st ident size).1 := by
-  have h := (observational_equivalence_partial st cfg steps hc).1 ident size
-  generalize (queryShard (run st { cfg := cfg } steps) st ident size).1 = A at h hv
-  generalize (queryShard (fresh cfg (lastDesc steps [])) st ident size).1 = B at h hv
-  induction A generalizing B with
-  | nil => cases B with
-    | nil => rfl
-    | cons _ _ => simp [eraseV] at h
-  | cons a A ih =>
-    cases B with
-    | nil => simp [eraseV] at h
-    | cons b B =>
-      simp only [eraseV, List.map_cons, List.cons.injEq] at h hv
-      have := ih B (by simpa [eraseV] using h.2) hv.2
-      rw [this]
-      congr 1
-      cases a; cases b
-      simp_all
+/-- **lookback_window_valid**: after any history, a cached look-back sub-ring is valid for every
+window start in `[after, before]`: there the ring itself would not be returned and the look-back
+selection is the one that was cached (`before` = `validForLookbackWindowsStartingBefore`, the
+earliest registration / read-only timestamp of a member inside the window). -/
+theorem lookback_window_valid (st : Streams) (cfg : Cfg) (steps : List Step) (hc : CanonSteps steps)
+    (k : LKey) (e : LBEntry) (hl : lookupAssoc k (run st { cfg := cfg } steps).lbCache = some e) (now : Int)
+    (hw1 : e.after ≤ now - k.period) (hw2 : now - k.period ≤ e.before) :
+    let c := run st { cfg := cfg } steps
+    isSelf c k.size k.period now = false ∧
+    shardIds c.cfg c.idx (st k.ident) k.size k.period now =
+      shardIds c.cfg c.idx (st k.ident) k.size k.period (e.after + k.period) :=
+  PfC13.lookback_window_valid st _ (inv_run st steps { cfg := cfg } (inv_init st cfg) hc) k e hl now hw1 hw2
+
+/-
+Not proved: the look-back cache of the partition ring (`pqueryShardLB`; the plain partition cache is
+`partition_cache_equiv` below) — tied by correspondence and judged on every generated history
+(mutation M6 is caught there).
+-/
 
 /-! ### partition ring: watcher and shard cache -/
 
@@ -119,35 +114,42 @@ theorem partition_cache_equiv (st : PStreams) (steps : List PStep) (ident : Stri
   have h := pinv_run st steps {} (fun k ids hk => by simp [lookupAssoc] at hk)
   rw [pqueryShard_equiv st _ h.1, h.2]
 
-/-! ### the finding: `RingCompare` misses `Versions` -/
+/-
+History — finding F-C13-1 (fixed by 0ec0b1e). Before the fix `RingCompare` did not read `Versions`; these
+were theorems about the model of the old code:
+
+  theorem compare_misses_versions : ringCompare [wi0, wi1] [wi0v, wi1] = .equal ∧ [wi0, wi1] ≠ [wi0v, wi1]
+  theorem stale_versions_witness :
+      let steps := [Step.upd [wi0, wi1], Step.qS "t" 0, Step.upd [wi0v, wi1]]
+      CanonSteps steps ∧ (queryShard (run wst {cfg := ⟨false⟩} steps) wst "t" 0).1 = [wi0] ∧
+      (queryShard (fresh ⟨false⟩ (lastDesc steps [])) wst "t" 0).1 = [wi0v]
+
+and `observational_equivalence` was `observational_equivalence_partial` (answers equal up to Versions).
+`versions_update_is_different` is the former witness on the fixed code.
+-/
 
 def wi0 : Inst := { id := "i0", tokens := [10] }
 def wi0v : Inst := { id := "i0", tokens := [10], versions := [(7, 7)] }
 def wi1 : Inst := { id := "i1", tokens := [20], ro := true, roTs := 5 }
 def wst : Streams := fun _ _ _ => 0
 
-/-- a Versions-only update is classified `Equal`. -/
-theorem compare_misses_versions : ringCompare [wi0, wi1] [wi0v, wi1] = .equal ∧ [wi0, wi1] ≠ [wi0v, wi1] := by decide
+/-- a Versions-only update is now `Different`, and the former stale answer is fresh. -/
+theorem versions_update_is_different :
+    ringCompare [wi0, wi1] [wi0v, wi1] = .different ∧
+    (queryShard (run wst { cfg := ⟨false⟩ } [Step.upd [wi0, wi1], Step.qS "t" 0, Step.upd [wi0v, wi1]]) wst "t" 0).1 = [wi0v] := by
+  decide
 
-/-- **F-C13-1**: query (fills the cache), Versions-only update, same query: the long-lived client
-still answers with the old Versions, a fresh client with the new ones. -/
-theorem stale_versions_witness :
-    let steps := [Step.upd [wi0, wi1], Step.qS "t" 0, Step.upd [wi0v, wi1]]
-    CanonSteps steps ∧
-    (queryShard (run wst { cfg := ⟨false⟩ } steps) wst "t" 0).1 = [wi0] ∧
-    (queryShard (fresh ⟨false⟩ (lastDesc steps [])) wst "t" 0).1 = [wi0v] := by
-  refine ⟨?_, by decide, by decide⟩
+/-! ### non-vacuity -/
+
+example : Canon [wi0, wi1] ∧ Canon [{ wi0 with ts := 5 }, wi1] ∧ ringCompare [wi0, wi1] [{ wi0 with ts := 5 }, wi1] ≠ .different := by
+  refine ⟨by unfold Canon; decide, by unfold Canon; decide, by decide⟩
+example : CanonSteps [Step.upd [wi0, wi1], Step.qS "t" 0, Step.upd [wi0v, wi1]] := by
   intro s hs d hd
   simp only [List.mem_cons, List.not_mem_nil, or_false] at hs
   rcases hs with rfl | rfl | rfl
   · cases hd; unfold Canon; decide
   · cases hd
   · cases hd; unfold Canon; decide
-
-/-! ### non-vacuity -/
-
-example : Canon [wi0, wi1] ∧ Canon [wi0v, wi1] ∧ ringCompare [wi0, wi1] [wi0v, wi1] ≠ .different := by
-  refine ⟨by unfold Canon; decide, by unfold Canon; decide, by decide⟩
 example : ringCompare [wi0, wi1] [{ wi0 with ts := 5 }, wi1] = .equalButStatesAndTimestamps := by decide
 example : ringCompare [wi0, wi1] [{ wi0 with zone := "b" }, wi1] = .different := by decide
 
